@@ -6,11 +6,16 @@ PID = "C04"
 PROPS_MODULE = "Props.C04"
 THEOREMS = ["default_wf_core", "wf_core_is_certificate", "default_wf_struct", "generations_identical",
             "default_closed_form_is_solution", "default_closed_form_initial", "default_solution_unique"]
-REQUIRED = ["Props/C04.v", "Proofs/CertDefault/DigestVal.v"]
+EXTRA_PROPS = {"Props.C04b": ["default_float_data_certificate", "float_matrices_contribution", "lambda_perturbation",
+                             "float_data_error", "default_data_error_below_5e12"]}
+REQUIRED = ["Props/C04.v", "Props/C04b.v", "Proofs/CertDefault/DigestVal.v", "Proofs/CertDefault/FloatDataCert.v"]
 TRANSLATORS = ["tr_data", "tr_tables", "tr_pure"]
 SHAPE_KEYS = ["load_dataset"]
-PARTIAL = ["float-vs-exact contribution bound (5e-12) is checked numerically in the correspondence "
-           "stream 'float_vs_exact' and stated as theorem default_data_error only once Proofs/FloatData.v is in"]
+PARTIAL = ["float_data_error bounds the contribution of the stored double-precision DATA (matrices, decay constants) "
+           "under exact arithmetic; the rounding of the float ARITHMETIC itself (SciPy dot products, exp) is not "
+           "covered by a theorem - it is measured by the C01 correspondence against interval enclosures",
+           "default_data_error_below_5e12 takes the 1e-15 relative bound on the decay constants from "
+           "default_float_data_certificate (chk_lambda_close, kernel-computed against ln2 enclosure)"]
 TRUSTED_BASE = [
     "Coq 8.16.1 kernel incl. vm_compute (no native_compute)",
     "axioms: ClassicalDedekindReals.sig_forall_dec, sig_not_dec, functional_extensionality_dep, classic (Reals/Coquelicot); "
